@@ -159,7 +159,9 @@ class Agent(metaclass=ABCMeta):
                 if itr_event in relevant_events:
                     continue
                 relevant_events.append(itr_event)
-            elif self._time < itr_event.time or fpe_equals(itr_event.time, self._time):
+            elif self._time < itr_event.time:
+                # [NOTE]: an impulse scheduled exactly at the current time was already applied when the
+                #   previous propagation stopped on it; keeping it would apply the delta-v a second time.
                 relevant_events.append(itr_event)
         self.propagate_event_queue = relevant_events
 
